@@ -26,8 +26,8 @@ RULE = (
     "table set incl. copies/conjugates is kept acyclic); one long-lived parser and the snapshot of a separate fresh instance. "
     "Rules (<=30 steps): list_decay_modes, print_decay_modes with drawn options, build_decay_chains with drawn stable sets, "
     "expand_decay_modes, every dict_*/list_*/get_* query, global_photos_flag, repr, list_decay_mother_names, decay-mode "
-    "details, each optionally followed by in-place mutation (recursively) of the returned value, and parse() again with the "
-    "same switch. After every step snapshot(parser) must equal the fresh snapshot, and the answer of every query with arguments must equal that of a newly parsed instance; after every (re)parse the tables must equal "
+    "details, each optionally followed by in-place mutation (recursively) of the returned value, and parse() again -- with the "
+    "default, or with charge-conjugate decays explicitly on or off (the fresh instance it is compared with is parsed the same way). After every step snapshot(parser) must equal the fresh snapshot, and the answer of every query with arguments must equal that of a newly parsed instance; after every (re)parse the tables must equal "
     "the reference (copy semantics) and the Tree/Token objects of a derived table must be disjoint from its source's. "
     "Non-trivial: a history with >=1 mutation followed by >=2 further steps on a file with >=1 copied or conjugated table."
 )
@@ -165,6 +165,7 @@ class State:
         self.f = f
         self.text = G.render(f)
         self.exp = R.all_tables(f)
+        self.switch = True
         with warnings.catch_warnings():
             warnings.simplefilter("ignore")
             fresh_p = make_parser(self.text, ID, extra_models=tuple(f.get("extra_models", ())))
@@ -175,6 +176,12 @@ class State:
             # chain building / expansion only where the independently computed unfolding is small
             self.safe = [m for m in tabs if R.count_nodes(tabs, m) <= 400 and R.count_paths(tabs, m) <= 200]
             self.fresh = snapshot(fresh_p, ID, chain_mothers=self.safe, expand_mothers=self.safe)
+            # a freshly parsed instance with charge-conjugate decays switched off (for histories that re-parse that way)
+            self.exp_off = R.all_tables(f, include_cc=False)
+            off_names = {m for m, _, _ in self.exp_off}
+            self.safe_off = [m for m in self.safe if m in off_names]
+            fresh_off = make_parser(self.text, ID, extra_models=tuple(f.get("extra_models", ())), include_cc=False)
+            self.fresh_off = snapshot(fresh_off, ID, chain_mothers=self.safe_off, expand_mothers=self.safe_off)
             self.p = make_parser(self.text, ID, extra_models=tuple(f.get("extra_models", ())))
         self.names = sorted({d for _, _, ls in self.exp for ln in ls for d in ln["fs"]} | set(self.mothers))
         self.history = []
@@ -183,7 +190,7 @@ class State:
     def check_structure(self):
         with warnings.catch_warnings():
             warnings.simplefilter("ignore")
-            compare_tables(ID, self.p, self.exp)
+            compare_tables(ID, self.p, self.exp if self.switch else self.exp_off)
         if not hasattr(self.p, "_parsed_decays"):
             return  # internal representation changed: the object-sharing invariant cannot be read (not a violation)
         trees = {}
@@ -191,7 +198,7 @@ class State:
             trees.setdefault(t.children[0].children[0].value, t)
         ccd = R.cc_dict(self.f)
         cps = R.copies(self.f)
-        for m, origin, _ in self.exp:
+        for m, origin, _ in (self.exp if self.switch else self.exp_off):
             src = cps.get(m) if origin == "copy" else (R.conj_name(m, ccd) if origin == "conj" else None)
             if src is None or src not in trees or m not in trees:
                 continue
@@ -203,9 +210,11 @@ class State:
         self.history.append(s)
         p = self.p
         kind = s["op"]
-        mo = self.mothers[s.get("m", 0) % len(self.mothers)] if self.mothers else None
+        mothers = self.mothers if self.switch else [m for m, _, _ in self.exp_off]
+        safe = self.safe if self.switch else self.safe_off
+        mo = mothers[s.get("m", 0) % len(mothers)] if mothers else None
         if kind in ("chains", "expand"):
-            mo = self.safe[s.get("m", 0) % len(self.safe)] if self.safe else None
+            mo = safe[s.get("m", 0) % len(safe)] if safe else None
         with warnings.catch_warnings():
             warnings.simplefilter("ignore")
             with impl(ID, kind):
@@ -238,13 +247,18 @@ class State:
                 elif kind == "repr":
                     r = (repr(p), str(p), p.number_of_decays)
                 elif kind == "reparse":
-                    p.parse()
+                    sw = s.get("switch")
+                    if sw is None:
+                        p.parse()  # the default: charge-conjugate decays included, whatever an earlier call asked for
+                    else:
+                        p.parse(include_ccdecays=sw)
+                    self.switch = True if sw is None else bool(sw)
                     r = None
                 else:
                     r = None
             # queries with arguments: the answer itself must be the one a freshly parsed instance gives
             if kind in ("chains", "expand", "print", "list_decay_modes") and mo:
-                fp = make_parser(self.text, ID, extra_models=tuple(self.f.get("extra_models", ())))
+                fp = make_parser(self.text, ID, extra_models=tuple(self.f.get("extra_models", ())), include_cc=self.switch)
                 with impl(ID, kind + "(fresh)"):
                     if kind == "chains":
                         want = fp.build_decay_chains(mo, stable_particles=S)
@@ -274,8 +288,9 @@ class State:
     def compare(self):
         with warnings.catch_warnings():
             warnings.simplefilter("ignore")
-            now = snapshot(self.p, ID, chain_mothers=self.safe, expand_mothers=self.safe)
-        d = diff_snapshots(self.fresh, now)
+            safe = self.safe if self.switch else self.safe_off
+            now = snapshot(self.p, ID, chain_mothers=safe, expand_mothers=safe)
+        d = diff_snapshots(self.fresh if self.switch else self.fresh_off, now)
         if d is not None:
             raise Mismatch(f"C08:snapshot:{d[0]}", f"after {self.history[-1] if self.history else 'init'}: query {d[0]} differs from a fresh instance: {d[1]}")
 
@@ -366,9 +381,9 @@ def make_machine(rec, shrink_budget_s=40.0):
         def rep(self):
             self._do({"op": "repr"})
 
-        @rule()
-        def reparse(self):
-            self._do({"op": "reparse"})
+        @rule(sw=st.sampled_from((None, None, True, False)))
+        def reparse(self, sw):
+            self._do({"op": "reparse", "switch": sw})
 
         def teardown(self):
             if self.s is not None:
